@@ -77,6 +77,8 @@ theorem simple_after_warmup (r : Gen.Caches.Row) (st : Caches.State) (c : Caches
     one completed call per dimension no later call rebuilds a shared table; caches with further key parameters
     (`divisor`, `log2bound`, …) are thread-local. -/
 theorem shared_caches_keyed_by_dimension_only :
-    Gen.Caches.rows.all (fun r => r.tls || (r.guard.isEmpty && r.slotByM)) = true := by decide +kernel
+    Gen.Caches.rows.all (fun r => r.tls || (r.guard.isEmpty && r.slotByM)) = true ∧
+    15 ≤ Gen.Caches.rows.length ∧ (Gen.Caches.rows.any fun r => !r.tls) = true ∧ (Gen.Caches.rows.any fun r => r.tls) = true := by
+  decide +kernel
 
 end Spq.C12
